@@ -154,6 +154,22 @@ theorem labels_unique (hid : (cat.map Src.id).Nodup) :
     ((regroupWith cat lab K).flatten.map fun s => (s.island, s.source)).Nodup :=
   regroupWith_labels_nodup cat lab K hid
 
+/-- the property does not say *which* integer an island gets, nor in which order groups are returned: uniqueness of
+    the labels survives every injective renumbering `σ` of the island numbers (the correspondence compares the code
+    with the model up to such a renumbering) -/
+theorem labels_unique_up_to_renumbering (hid : (cat.map Src.id).Nodup) (σ : Nat → Nat)
+    (hσ : Function.Injective σ) :
+    ((regroupWith cat lab K).flatten.map fun s => (σ s.island, s.source)).Nodup := by
+  have h := regroupWith_labels_nodup cat lab K hid
+  have e : ((regroupWith cat lab K).flatten.map fun s => (σ s.island, s.source))
+      = ((regroupWith cat lab K).flatten.map fun s => (s.island, s.source)).map (fun p => (σ p.1, p.2)) := by
+    rw [List.map_map]; rfl
+  rw [e]
+  refine List.Nodup.map ?_ h
+  intro p q hpq
+  simp only [Prod.mk.injEq] at hpq
+  exact Prod.ext (hσ hpq.1) hpq.2
+
 /-- **other_attrs_unchanged**: the output, with the two labels blanked, is a rearrangement of the
     input with the two labels blanked — every source is returned once and nothing but
     `island`/`source` is touched; within a group even the order is the input order. -/
